@@ -177,3 +177,113 @@ Section MM.
     apply in_map_iff. exists (x, u). split; [reflexivity|]. apply (Permutation_in _ (Permutation_sym Hp)). exact Hin.
   Qed.
 End MM.
+
+(* ---------------------------------------------------------------- monotonicity (C17) *)
+From VL Require Import Proofs.CopelandMono_proofs.
+
+Definition sc (v : pvotes) (s : scorer) (a b : C) : Z :=
+  match s with
+  | WinningVotes => if pget0 v (b, a) <? pget0 v (a, b) then pget0 v (a, b) else 0
+  | Margins => pget0 v (a, b) - pget0 v (b, a)
+  | PairwiseOpposition => pget0 v (a, b)
+  end.
+
+Lemma pget0_nn (v : pvotes) : (forall p n, In (p, n) v -> 0 <= n) -> forall p, 0 <= pget0 v p.
+Proof. intros Hnn p. unfold pget0. destruct (pget v p) as [n|] eqn:E; [apply pget_In in E; exact (Hnn _ _ E)|lia]. Qed.
+
+Section MCVAL.
+  Variable v : pvotes.
+  Hypothesis Hnn : forall p n, In (p, n) v -> 0 <= n.
+  Hypothesis H2 : (2 <= length (candidates v))%nat.
+  Notation cs := (candidates v).
+
+  (* the stored worst defeat of c is the maximum of the scores of the other candidates against c *)
+  Lemma mc_value s c : In c cs -> exists m, In (c, m) (mc_of (score_pairs s (complete v))) /\
+    (forall a, In a cs -> a <> c -> sc v s a c <= m) /\ (exists a, In a cs /\ a <> c /\ sc v s a c = m).
+  Proof.
+    intros Hc. destruct (mc_keys v H2 s) as [Kn Kk]. destruct (mc_fold (score_pairs s (complete v)) []) as (_ & _ & I3).
+    fold (mc_of (score_pairs s (complete v))) in I3.
+    assert (Hk : In c (map fst (mc_of (score_pairs s (complete v))))) by (apply Kk, Hc).
+    apply in_map_iff in Hk. destruct Hk as ([c' m] & Hf & Hin). simpl in Hf. subst c'. exists m. split; [exact Hin|].
+    pose proof (In_dget _ c m Kn Hin) as Hg. destruct (I3 c m Hg) as (Hub & _ & Hex). split.
+    - intros a Ha Hac. destruct (score_pairs_has v s a c Ha Hc Hac) as (m' & Hm').
+      pose proof (Hub ((a, c), m') Hm' eq_refl) as Hle. simpl in Hle.
+      destruct (score_pairs_in v s a c m' Hm') as (_ & _ & _ & ->). unfold sc. exact Hle.
+    - destruct Hex as [Hex|([[a b] m'] & Hin' & Hl & Hv)]; [simpl in Hex; discriminate|]. simpl in Hl, Hv. subst b m'.
+      destruct (score_pairs_in v s a c m Hin') as (Ha & _ & Hac & Hm). exists a. split; [exact Ha|]. split; [exact Hac|]. unfold sc. symmetry. exact Hm.
+  Qed.
+End MCVAL.
+
+Section MMONO.
+  Variables v v' : pvotes.
+  Variable w : C.
+  Hypothesis Hnn : forall p n, In (p, n) v -> 0 <= n.
+  Hypothesis Hnn' : forall p n, In (p, n) v' -> 0 <= n.
+  Hypothesis H2 : (2 <= length (candidates v))%nat.
+  Hypothesis Hr : raises v v' w.
+
+  Lemma cands_eq : candidates v' = candidates v.
+  Proof. destruct Hr; assumption. Qed.
+
+  Lemma sc_loser_w s a : sc v' s a w <= sc v s a w.
+  Proof.
+    destruct Hr as (_ & Hup & _). destruct (Hup a) as [U1 U2]. pose proof (pget0_nn v Hnn (a, w)). pose proof (pget0_nn v Hnn (w, a)).
+    unfold sc. destruct s; [|lia|lia].
+    destruct (pget0 v' (w, a) <? pget0 v' (a, w)) eqn:E1; destruct (pget0 v (w, a) <? pget0 v (a, w)) eqn:E2;
+      try apply Z.ltb_lt in E1; try apply Z.ltb_ge in E1; try apply Z.ltb_lt in E2; try apply Z.ltb_ge in E2; lia.
+  Qed.
+
+  Lemma sc_winner_w s x : sc v s w x <= sc v' s w x.
+  Proof.
+    destruct Hr as (_ & Hup & _). destruct (Hup x) as [U1 U2]. pose proof (pget0_nn v' Hnn' (w, x)). pose proof (pget0_nn v' Hnn' (x, w)).
+    unfold sc. destruct s; [|lia|lia].
+    destruct (pget0 v' (x, w) <? pget0 v' (w, x)) eqn:E1; destruct (pget0 v (x, w) <? pget0 v (w, x)) eqn:E2;
+      try apply Z.ltb_lt in E1; try apply Z.ltb_ge in E1; try apply Z.ltb_lt in E2; try apply Z.ltb_ge in E2; lia.
+  Qed.
+
+  Lemma sc_others s a x : a <> w -> x <> w -> sc v' s a x = sc v s a x.
+  Proof.
+    destruct Hr as (_ & _ & Hs). intros Ha Hx. unfold sc. rewrite (Hs a x Ha Hx), (Hs x a Hx Ha). reflexivity.
+  Qed.
+
+  Theorem minimax_monotone s : minimax s v 1 = [Cand w] -> minimax s v' 1 = [Cand w].
+  Proof.
+    intros Hwin. rewrite minimax_unfold in *.
+    assert (H2' : (2 <= length (candidates v'))%nat) by (rewrite cands_eq; exact H2).
+    destruct (mc_keys v H2 s) as [Kn Kk]. destruct (mc_keys v' H2' s) as [Kn' Kk'].
+    set (nd := map (fun cs0 : C * Z => (fst cs0, - snd cs0)) (mc_of (score_pairs s (complete v)))) in *.
+    set (nd' := map (fun cs0 : C * Z => (fst cs0, - snd cs0)) (mc_of (score_pairs s (complete v')))).
+    assert (Nn : NoDup (map fst nd)) by (unfold nd; rewrite map_map; simpl; exact Kn).
+    assert (Nn' : NoDup (map fst nd')) by (unfold nd'; rewrite map_map; simpl; exact Kn').
+    destruct (get_n_best_1_cand zle_bool zle_total zle_trans nd w [] Nn Hwin) as (_ & uw & Hinw & Hmax).
+    assert (Hwc : In w (candidates v)).
+    { apply Kk. unfold nd in Hinw. apply in_map_iff in Hinw. destruct Hinw as ([w' mw] & Hf & Hin). simpl in Hf. injection Hf as Hf1 _. subst w'.
+      apply in_map_iff. exists (w, mw). split; [reflexivity|exact Hin]. }
+    destruct (mc_value v H2 s w Hwc) as (mw & Hmw & Hubw & _).
+    assert (Hwc' : In w (candidates v')) by (rewrite cands_eq; exact Hwc).
+    destruct (mc_value v' H2' s w Hwc') as (mw' & Hmw' & _ & (a0 & Ha0 & Ha0w & Ea0)).
+    assert (Huw : uw = - mw).
+    { unfold nd in Hinw. apply in_map_iff in Hinw. destruct Hinw as ([w' m0] & Hf & Hin). simpl in Hf. injection Hf as Hf1 Hf2. subst w'.
+      assert (m0 = mw); [|lia]. pose proof (In_dget _ w m0 Kn Hin) as G1. pose proof (In_dget _ w mw Kn Hmw) as G2. congruence. }
+    (* w's worst defeat does not grow *)
+    assert (Hle_w : mw' <= mw).
+    { rewrite <- Ea0. etransitivity; [apply sc_loser_w|]. apply Hubw; [rewrite <- cands_eq; exact Ha0|exact Ha0w]. }
+    apply (get_n_best_unique_max zle_bool zle_total zle_trans (Pos.eq_dec : forall a b : C, {a = b} + {a <> b}) nd' w (- mw') Nn').
+    - unfold nd'. apply in_map_iff. exists (w, mw'). split; [reflexivity|exact Hmw'].
+    - intros x u Hin' Hne. unfold nd' in Hin'. apply in_map_iff in Hin'. destruct Hin' as ([x' mx'] & Hf & Hxin'). simpl in Hf. injection Hf as -> <-.
+      assert (Hxc' : In x (candidates v')) by (apply Kk'; apply in_map_iff; exists (x, mx'); split; [reflexivity|exact Hxin']).
+      assert (Hxc : In x (candidates v)) by (rewrite <- cands_eq; exact Hxc').
+      destruct (mc_value v H2 s x Hxc) as (mx & Hmx & _ & (a1 & Ha1 & Ha1x & Ea1)).
+      destruct (mc_value v' H2' s x Hxc') as (mx2 & Hmx2 & Hubx' & _).
+      assert (mx2 = mx') by (pose proof (In_dget _ x mx2 Kn' Hmx2) as G1; pose proof (In_dget _ x mx' Kn' Hxin') as G2; congruence). subst mx2.
+      (* x's worst defeat does not shrink *)
+      assert (Hge_x : mx <= mx').
+      { rewrite <- Ea1. etransitivity; [|apply (Hubx' a1); [rewrite cands_eq; exact Ha1|exact Ha1x]].
+        destruct (Pos.eq_dec a1 w) as [->|Hn]; [apply sc_winner_w|rewrite sc_others by assumption; lia]. }
+      (* in v, x was strictly worse than w *)
+      assert (Hlt : - mx < uw).
+      { assert (Hinx : In (x, - mx) nd) by (unfold nd; apply in_map_iff; exists (x, mx); split; [reflexivity|exact Hmx]).
+        pose proof (Hmax x (- mx) Hinx Hne) as H. unfold GetNBest.ltb, zle_bool in H. apply negb_true_iff, Z.leb_gt in H. exact H. }
+      unfold GetNBest.ltb, zle_bool. apply negb_true_iff, Z.leb_gt. lia.
+  Qed.
+End MMONO.
